@@ -286,7 +286,9 @@ func (fr *Frame) execBlock(b *ssa.BasicBlock, skip int, reach T, st *State) {
 		case *ssa.Lookup:
 			fr.lookup(x, reach, st)
 		case *ssa.MakeChan:
-			fr.vals[x] = ex.allocRef(st, reach, fr.vname(x))
+			ch := ex.allocRef(st, reach, fr.vname(x))
+			fr.vals[x] = ch
+			ex.assume(reach, eq(app("Int", "chan$cap", ch), fr.val(x.Size)))
 		case *ssa.MakeMap:
 			r := ex.allocRef(st, reach, fr.vname(x))
 			fr.vals[x] = r
@@ -334,6 +336,8 @@ func (fr *Frame) execBlock(b *ssa.BasicBlock, skip int, reach T, st *State) {
 				}
 				fr.ghostAt("call", fr.callOrd[x], fr.callName[x], "before", reach, st, bind)
 			}
+			// a spawned closure that is itself under contract: its precondition is owed at the spawn site
+			fr.spawnPre(x, reach, st)
 			// sequentialised: a spawn has no effect at the spawn site (DESIGN §2.3 rule 4)
 			ex.abstractions["go statement at "+ex.pos(x.Pos())+": spawned call not executed at the spawn site"] = true
 		case *ssa.If:
@@ -964,4 +968,43 @@ func (fr *Frame) guardCheck(x *ssa.FieldAddr, base *LV, reach T, st *State) {
 	props := g.Props
 	ex.oblige("lock:"+nt.Obj().Name()+"."+stt.Field(x.Field).Name()+":"+kind, "lock", props, reach, or(fresh, held), ex.pos(instrPos(x)),
 		fmt.Sprintf("%s.%s is accessed with %s held (guarded_by, %s)", nt.Obj().Name(), stt.Field(x.Field).Name(), g.Mutex, relPath(g.Where)))
+}
+
+
+// spawnPre: `go f(args)` where f is a closure with a contract: the requires clauses of f are proved at the spawn site,
+// with f's parameters bound to the arguments and its captured variables resolved as the locals they are.
+func (fr *Frame) spawnPre(x *ssa.Go, reach T, st *State) {
+	ex := fr.ex
+	var fn *ssa.Function
+	switch v := x.Call.Value.(type) {
+	case *ssa.MakeClosure:
+		fn, _ = v.Fn.(*ssa.Function)
+	case *ssa.Function:
+		fn = v
+	default:
+		if ci := fr.findClosure(x.Call.Value); ci != nil {
+			fn = ci.fn
+		}
+	}
+	if fn == nil {
+		return
+	}
+	fc := ex.L.contracts.Funcs[fn.String()]
+	if fc == nil || fc.Extern || len(fc.Requires) == 0 {
+		return
+	}
+	for i, r := range fc.Requires {
+		env := fr.specEnv(st, fr.entry, fr.curBlock, nil)
+		env.atInstr = x
+		for j, p := range fn.Params {
+			if j < len(x.Call.Args) {
+				a := x.Call.Args[j]
+				if _, isLV := fr.lvals[a]; !isLV {
+					env.vars[p.Name()] = Val{t: fr.val(a), typ: a.Type()}
+				}
+			}
+		}
+		c := env.evalBool(r)
+		ex.oblige(fmt.Sprintf("pre:go:%s.%s@%d", fr.callName[x], clauseName(r, i), fr.callOrd[x]), "pre", r.Props, reach, c, r.where(), r.Text)
+	}
 }
